@@ -294,7 +294,7 @@ func (m *mtr) hoist(e ast.Expr, pre *string, guarded bool) ast.Expr {
 			}
 			m.ntmp++
 			name := fmt.Sprintf("%s%d_", strings.ToLower(meth), m.ntmp)
-			m.env[name] = typ
+			m.bind(name, typ, e.Pos())
 			*pre += name + " <- " + prim + " ;;\n  "
 			return &ast.Ident{Name: name, NamePos: e.Pos()}
 		}
@@ -1106,7 +1106,7 @@ func (m *mtr) stmts(list []ast.Stmt, out vset, k func() string) string {
 					val = typ.zero()
 					m.ptrVar[id.Name] = true
 				}
-				m.env[id.Name] = typ
+				m.bind(id.Name, typ, id.Pos())
 				m.decl[id.Name] = typ
 				o += "let " + cname(id.Name) + " : " + typ.coq() + " := " + val + " in\n  "
 			}
@@ -1198,7 +1198,7 @@ func (m *mtr) stmts(list []ast.Stmt, out vset, k func() string) string {
 				dead = append(dead, v)
 			}
 		}
-		sort.Strings(vars)
+		m.sortDecl(vars)
 		isM := m.monadic(body) || m.monadic(els)
 		saved := m.save()
 		var th, el string
@@ -1447,7 +1447,7 @@ func (p *pkg) mfunction(key string) string {
 			if typ.k == "opt" && !usesNil(d.Body, id.Name) {
 				typ = typ.elem
 			}
-			t.env[id.Name] = typ
+			t.bind(id.Name, typ, id.Pos())
 			m.decl[id.Name] = typ
 			sig.params = append(sig.params, typ)
 			params = append(params, fmt.Sprintf("(%s : %s)", cname(id.Name), typ.coq()))
@@ -1486,7 +1486,7 @@ func (p *pkg) mfunction(key string) string {
 			sig.res = append(sig.res, typ)
 			sig.resPtr = append(sig.resPtr, isPtr)
 			t.results = append(t.results, id.Name)
-			t.env[id.Name] = typ
+			t.bind(id.Name, typ, id.Pos())
 			m.decl[id.Name] = typ
 			m.ptrVar[id.Name] = isPtr
 			pre += "let " + cname(id.Name) + " := " + typ.zero() + " in\n  "
